@@ -553,8 +553,11 @@ class HDF5DataFrame(DataFrame):
         else:
             val.validate_all_field_length_in_df(self) 
 
+            # read the index once: it may be a column of this dataframe, which the loop rewrites
+            index_to_apply_ = val.array_from_field_or_lower('index_to_apply', index_to_apply)
+
             for field in self._columns.values():
-                field.apply_index(index_to_apply, in_place=True)
+                field.apply_index(index_to_apply_, in_place=True)
             return self
 
 
